@@ -152,6 +152,7 @@ class ScriptedSocket:
 
     def shutdown(self, how):
         self.calls += 1
+        raise OSError(errno.ENOTCONN, 'Transport endpoint is not connected')      # an unconnected UDP socket says so
 
     def close(self):
         self.closed = True
@@ -208,6 +209,13 @@ REQUEST = b'{"SECoP":"discover"}'
 DATAGRAMS = {
     'discover': (REQUEST, MUST, 'request'),
     'discover-spaced': (b' {\n "SECoP" : "discover"\n}\r\n', MUST, 'request'),
+    # the same JSON value spelled with escapes: what counts is the DECODED value
+    'discover-escaped-value': (b'{"SECoP":"d\\u0069scover"}', MUST, 'request-with-json-escapes'),
+    'discover-escaped-key': (b'{"\\u0053ECoP":"discover"}', MUST, 'request-with-json-escapes'),
+    'discover-all-escaped': (('{"' + ''.join('\\u%04x' % ord(c) for c in 'SECoP') + '":"'
+                              + ''.join('\\u%04X' % ord(c) for c in 'discover') + '"}').encode(), MUST, 'request-with-json-escapes'),
+    'discover-with-bom': (b'\xef\xbb\xbf' + REQUEST, MAY, 'request-variant'),       # RFC 8259: a parser MAY ignore a BOM
+    'discover-duplicate-key': (b'{"SECoP":"node","SECoP":"discover"}', MAY, 'request-variant'),
     'discover-extra-member': (b'{"SECoP":"discover","id":7}', MAY, 'request-variant'),
     'discover-oversize': (REQUEST + b' ' * 1100, MAY, 'request-variant'),
     'node-announcement': (b'{"SECoP":"node","port":10767,"equipment_id":"other","firmware":"x","description":"y"}',
@@ -339,6 +347,10 @@ def judge_message(data, eid, desc, ports):
 
 def addr_of(i):
     return ('192.0.2.%d' % (i + 1), 40000 + i)
+
+
+def unicast_addr(i):
+    return ('198.51.100.%d' % (i + 1), 41000 + i)
 
 
 def judge_run(part, case, eid, desc, ports, sock, exc, names, sigtag):
@@ -578,7 +590,10 @@ def shard_fn(shard):
         _, idx, vi = shard
         for plan in restart_scenarios(idx, b['restart_runs']):
             for reverse in (False, True):
-                run_restart(part, plan, reverse, VARIANTS[vi])
+                # choice point: which of the sockets bound to the discovery port gets the unicast requests
+                nbound = run_restart(part, plan, reverse, VARIANTS[vi], 0)
+                for choice in range(1, nbound or 0):
+                    run_restart(part, plan, reverse, VARIANTS[vi], choice)
     else:
         raise core.Inconclusive(f'unknown shard {shard!r}')
     return part
@@ -790,6 +805,8 @@ class LiveSocket(ScriptedSocket):
         super().__init__(family, kind)
         self.queue = []
         self.thread = None
+        self.shut = False
+        self.empty_returns = 0
         self.world = WORLD
         self.index = len(WORLD.sockets)
         self.run = WORLD.run
@@ -800,6 +817,12 @@ class LiveSocket(ScriptedSocket):
         while True:
             if self.closed:
                 raise OSError(9, 'Bad file descriptor')
+            if self.shut:
+                # measured on a real Linux UDP socket: after shutdown() every recvfrom returns (b'', None) at once
+                self.empty_returns += 1
+                if self.empty_returns > 200:
+                    raise core.Inconclusive('the listener spins on a socket that was shut down')
+                return b'', None
             if self.queue:
                 self.consumed += 1
                 data, addr = self.queue.pop(0)
@@ -814,10 +837,25 @@ class LiveSocket(ScriptedSocket):
         w.sends.append((w.run, w.down, self.index, self.consumed, bytes(data), addr, tuple(w.accepting_tcp_ports())))
         return len(data)
 
+    def is_bound(self):
+        """still in the set of sockets the kernel delivers datagrams for the discovery port to"""
+        return self.bound is not None and not self.closed
+
+    def wake(self):
+        if self.thread is not None and not self.thread.done and threading.current_thread() is not self.thread.thread:
+            self.thread.resume()
+
+    def shutdown(self, how):
+        """as measured on a real unconnected UDP socket (Linux): the call fails with ENOTCONN, but a thread blocked in
+        recvfrom wakes up and gets (b'', None); the socket stays bound until it is closed"""
+        self.calls += 1
+        self.shut = True
+        self.wake()
+        raise OSError(errno.ENOTCONN, 'Transport endpoint is not connected')
+
     def close(self):
         self.closed = True
-        if self.thread is not None and threading.current_thread() is not self.thread.thread:
-            self.thread.resume()        # the blocked recvfrom fails, the loop returns
+        self.wake()        # a blocked recvfrom fails, the loop returns
 
 
 class FakeTcpSocket:
@@ -934,7 +972,7 @@ class SleepShim:
 
 class World:
     """environment of one Server.run execution: the runs planned, the TCP layer, everything sent"""
-    def __init__(self, node, runs, variant, reverse):
+    def __init__(self, node, runs, variant, reverse, choice=0):
         self.node, self.runs, self.variant = node, runs, variant
         self.run = 0                # index of the current iteration of Server.run
         self.down = False           # the node was shut down / run() ended: it listens on nothing
@@ -949,6 +987,9 @@ class World:
         self.armed = False
         self.bind_errors = {}
         self.bind_attempts = 0
+        self.choice = choice        # which of the bound sockets gets a unicast datagram
+        self.max_bound = 0
+        self.stale_bound = {}       # run -> runs of the other sockets still bound when the node was up
 
     # --- the plan
     def bind_plan(self, port):
@@ -987,17 +1028,33 @@ class World:
             self.armed = False
             self.node_is_up()
 
-    def deliver(self, data, addr):
-        """a broadcast datagram reaches every socket bound to the discovery port that is still open"""
-        for sock in list(self.sockets):
-            if not sock.closed and sock.thread is not None and not sock.thread.done:
-                sock.queue.append((data, addr))
-                sock.thread.resume()
+    def bound_sockets(self):
+        return [s for s in self.sockets if s.is_bound()]
+
+    def hand(self, sock, data, addr):
+        sock.queue.append((data, addr))
+        if not sock.shut:
+            sock.wake()
+
+    def broadcast(self, data, addr):
+        """a broadcast datagram reaches EVERY socket bound to the discovery port (SO_REUSEPORT)"""
+        for sock in self.bound_sockets():
+            self.hand(sock, data, addr)
+
+    def unicast(self, data, addr):
+        """a unicast datagram reaches exactly ONE of the sockets bound to the port - the kernel picks it by a hash of the
+        sender: which one is a choice point of the exploration (self.choice; the caller runs every choice)"""
+        bound = self.bound_sockets()
+        self.max_bound = max(self.max_bound, len(bound))
+        if bound:
+            self.hand(bound[self.choice % len(bound)], data, addr)
 
     def node_is_up(self):
         k = self.run
         self.up_ports[k] = self.accepting_tcp_ports()
-        self.deliver(REQUEST, addr_of(k))
+        self.stale_bound[k] = [s.run for s in self.bound_sockets() if s.run != k]
+        self.broadcast(REQUEST, addr_of(k))
+        self.unicast(REQUEST, unicast_addr(k))
         if k + 1 < len(self.runs):
             nxt = self.runs[k + 1]
 
@@ -1016,8 +1073,10 @@ class World:
     def finish(self):
         """after run() returned: one more request, then end whatever the code under test left running"""
         self.down = True
-        self.deliver(REQUEST, addr_of(len(self.runs)))
-        return self.cleanup()
+        leaked = self.bound_sockets()
+        self.broadcast(REQUEST, addr_of(len(self.runs)))
+        self.cleanup()
+        return leaked
 
     def cleanup(self):
         leaked = [s for s in self.sockets if not s.closed]
@@ -1064,7 +1123,7 @@ VARIANTS = [        # EADDRINUSE answers to bind before it succeeds (interfaces 
 ]
 
 
-def run_restart(part, runs, reverse=False, variant=None):
+def run_restart(part, runs, reverse=False, variant=None, choice=0):
     """the real Server.run through len(runs) iterations: in run k bind succeeds for the tcp interfaces of runs[k] after
     variant['retries'] refusals with EADDRINUSE, the interfaces listed in 'fail' never get their port (EADDRINUSE on every
     attempt / EACCES); a discovery request is broadcast while the node is up, then Server.restart() (last run:
@@ -1077,7 +1136,7 @@ def run_restart(part, runs, reverse=False, variant=None):
     import sys
     import types
     variant = variant or VARIANTS[0]
-    case = {'kind': 'restart', 'runs': runs, 'reverse': reverse, 'variant': variant}
+    case = {'kind': 'restart', 'runs': runs, 'reverse': reverse, 'variant': variant, 'choice': choice}
     part.evaluations += 1
     part.states += 1
     if len(runs) > 1 or variant['retries'] or any(r['fail'] for r in runs):
@@ -1087,7 +1146,7 @@ def run_restart(part, runs, reverse=False, variant=None):
     if first['secondary']:
         node_cfg['secondary'] = list(first['secondary'])
     node = nodes.Node({}, node_cfg=node_cfg, start=True)
-    world = WORLD = World(node, runs, variant, reverse)
+    world = WORLD = World(node, runs, variant, reverse, choice)
     tcpmod = frappy.protocol.interface.tcp
     saved = (frappy.server.mkthread, frappy.server.get_class, frappy.server.MultiEvent, sys.stdout, SocketShim.socket,
              socketserver.socket, tcpmod.time)
@@ -1128,7 +1187,7 @@ def run_restart(part, runs, reverse=False, variant=None):
     if exc is not None:
         part.violation(f'C19:restart:run-raises:{type(exc).__name__}', case, f'{what}: {exc!r}')
         part.outcomes['restart:raises'] += 1
-        return
+        return world.max_bound
     reached = world.run + 1
     nbad = sum(v[0] for v in part.violations.values())
     when = lambda k: 'first-run' if k == 0 else 'after-restart'      # noqa
@@ -1179,19 +1238,32 @@ def run_restart(part, runs, reverse=False, variant=None):
                 answers.setdefault(run, []).append((addr, port))
     for k in world.up_ports:
         ports = world.up_ports[k]
-        got = [port for addr, port in answers.get(k, []) if addr == addr_of(k)]
-        if sorted(map(repr, got)) != sorted(map(repr, ports)):
-            part.violation(f'C19:restart:answer:not-exactly-one-answer-per-tcp-port:{when(k)}', case,
-                           f'{what}: the request in run {k + 1} was answered by the current listener with ports {got}, '
-                           f'the node accepts connections on {ports}')
-        if any(addr != addr_of(k) for addr, _ in answers.get(k, [])):
+        for how, sender in (('broadcast', addr_of(k)), ('unicast', unicast_addr(k))):
+            got = [port for addr, port in answers.get(k, []) if addr == sender]
+            if sorted(map(repr, got)) != sorted(map(repr, ports)):
+                kind = 'request-lost' if ports and not got else 'not-exactly-one-answer-per-tcp-port'
+                part.violation(f'C19:restart:answer:{how}-{kind}:{when(k)}', case,
+                               f'{what}: the {how} request in run {k + 1} was answered by the current listener with ports {got}, '
+                               f'the node accepts connections on {ports}'
+                               + (f' (the kernel handed it to socket #{choice % max(1, world.max_bound) + 1} of the '
+                                  f'{world.max_bound} bound to the discovery port)' if how == 'unicast' else ''))
+        if any(addr not in (addr_of(k), unicast_addr(k)) for addr, _ in answers.get(k, [])):
             part.violation(f'C19:restart:answer:sent-to-an-address-that-sent-nothing:{when(k)}', case, f'{what}: run {k + 1}')
+        if world.stale_bound.get(k):
+            part.violation('C19:restart:socket-of-a-previous-run-still-bound-to-the-discovery-port', case,
+                           f'{what}: while run {k + 1} is up, the listener socket(s) created in run(s) '
+                           f'{[r + 1 for r in world.stale_bound[k]]} are still bound (SO_REUSEPORT): the kernel hands them a share '
+                           f'of the unicast requests, which nobody reads')
+    if leaked:
+        part.violation('C19:restart:listener-socket-still-bound-after-the-node-stopped', case,
+                       f'{what}: after Server.run returned {len(leaked)} listener socket(s) (created in run(s) '
+                       f'{[s.run + 1 for s in leaked]}) are still bound to the discovery port')
     bad = nbad != sum(v[0] for v in part.violations.values())
     label = (f'{len(runs)}-runs-planned:{reached}-reached:retries-{variant["retries"]}:'
              + ('VIOLATION' if bad else 'consistent'))
     if leaked:
-        label += ':listener-sockets-left-open'
-    part.extra['restart_listener_sockets_left_open'] += len(leaked)
+        label += ':listener-sockets-left-bound'
+    part.extra['restart_listener_sockets_left_bound'] += len(leaked)
     part.extra['restart_virtual_sleep_tenths_of_s'] += int(round(sleeper.slept * 10))
     part.outcomes['restart:' + label] += 1
     if part.evaluations % 97 == 1:
@@ -1199,6 +1271,7 @@ def run_restart(part, runs, reverse=False, variant=None):
                      'variant': variant,
                      'sent': [[run + 1, 'down' if down else 'up', f'listener-of-run-{world.sockets[idx].run + 1}', len(d), list(p)]
                               for run, down, idx, pos, d, a, p in world.sends][:8], 'result': label})
+    return world.max_bound
 
 
 ALT_CFGS = [('tcp://10767', []), ('tcp://10769', ['tcp://10768'])]      # what a restart may change the interfaces to
@@ -1285,7 +1358,7 @@ def run(ctx):
 def replay(case):
     part = core.Part()
     if case['kind'] == 'restart':
-        run_restart(part, case['runs'], case.get('reverse', False), case.get('variant'))
+        run_restart(part, case['runs'], case.get('reverse', False), case.get('variant'), case.get('choice', 0))
     elif case['kind'] == 'server':
         run_server(part, case['interface'], case['secondary'], case['fail'], case.get('reverse', False))
     else:
